@@ -17,7 +17,9 @@
   * header    `C20_header_counterexample` (no checksum: a lowered `wal_sequence` replays applied records)
   * segments  `C20_segment_checked`                      +  `C20_segment_unchecked_counterexample`
   * verify    `C20_verify` (repaired)                    +  `C20_verify_counterexample_unfixed`
-  * the full statement is false for the code even after the repair: `C20_counterexample : ¬ C20_full`.
+  * the full statement is false for the code even after the repair: `C20_counterexample : ¬ C20_full`
+    (whole read path evaluated on a complete file image).
+  * `C20_source_performs_checks` ties the repaired-path theorems to the generated table of checks.
 -/
 import MvModel.Integrity
 import MvProps.C31
@@ -461,22 +463,86 @@ theorem C20_verify_counterexample_unfixed :
 
 /-! ### the full statement -/
 
-/-- the first sentence of C20 for the reads of an open handle, at full strength: whatever single
-    region differs between two files of equal length, every read agrees or fails.  Instantiated on
-    the pieces of the read path a region can influence: the pending list computed from header + WAL,
-    and the index loaders. -/
+/-- C20, first sentence, at full strength for the writable open of the repaired code: for ANY two
+    files of the same length (in particular: one region damaged), with a collision-free hash, opening
+    the second either fails or yields the same frame count, the same frame metadata, and payload reads
+    that agree or fail. -/
 def C20_full : Prop :=
-  (∀ (hdr hdr' : Header.Header) (rs : List Rec), pending hdr rs = [] → pending hdr' rs = []) ∧
-  (∀ (C : Codecs) (file file' : Bytes) (t : MToc) (kind : SegKind), file'.length = file.length →
-      loadKind C Checks.repaired file' t kind = loadKind C Checks.repaired file t kind ∨
-      ∃ e, loadKind C Checks.repaired file' t kind = .error e)
+  ∀ (C : Codecs) (file file' : Bytes) (h : Handle),
+    (∀ a b, C.H a = C.H b → a = b) → file'.length = file.length →
+    openRW C Checks.repaired file = .ok h →
+    (∃ e, openRW C Checks.repaired file' = .error e) ∨
+    (∃ h', openRW C Checks.repaired file' = .ok h' ∧
+      (readAll C Checks.repaired h').count = (readAll C Checks.repaired h).count ∧
+      (readAll C Checks.repaired h').metas = (readAll C Checks.repaired h).metas ∧
+      ∀ i, framePayload C Checks.repaired h' i = framePayload C Checks.repaired h i ∨
+           ∃ e, framePayload C Checks.repaired h' i = .error e)
 
-/-- **C20_counterexample** — false even for the repaired code: the header has no checksum (first
-    conjunct) and four index kinds are loaded without comparing their stored checksum (second). -/
+/-- codecs of the witness: the identity as (injective) hash, a TOC decoder that accepts anything -/
+def idCodecs : Codecs :=
+  { H := fun b => b, findFooter := fun _ => none,
+    decodeToc := fun _ => some { frames := [], segs := [], checksumOk := true, rest := [] },
+    unzstd := fun b => some b, view := fun _ b => some b, walEntry := fun _ => some true, legacyToc := fun _ _ => none }
+
+/-- a complete 4 384-byte file: header (wal_sequence = `walSeq`), a 128-byte WAL region holding one
+    record with sequence 1, a 32-byte TOC and its footer -/
+def cxFile (walSeq : Nat) : Bytes :=
+  (Header.fieldBytes { magic := Header.MAGIC, version := Header.EXPECTED_VERSION, footerOffset := 4096 + 128,
+                       walOffset := 4096, walSize := 128, walCheckpointPos := 0, walSequence := walSeq,
+                       tocChecksum := zeros 32 } ++ zeros (4096 - 80)) ++
+  (u64le 1 ++ u32le 32 ++ zeros 4 ++ List.replicate 32 7 ++ List.replicate 32 7 ++ zeros 48) ++ zeros 32 ++
+  Footer.encode { tocLen := 32, tocHash := zeros 32, generation := 1 }
+
+theorem cx_len : (cxFile 0).length = (cxFile 1).length := by decide +kernel
+
+set_option maxRecDepth 100000 in
+theorem cx_committed : (openRW idCodecs Checks.repaired (cxFile 1)).toOption.map
+    (fun h => (readAll idCodecs Checks.repaired h).count) = some 0 := by decide +kernel
+
+set_option maxRecDepth 100000 in
+theorem cx_damaged : (openRW idCodecs Checks.repaired (cxFile 0)).toOption.map
+    (fun h => (readAll idCodecs Checks.repaired h).count) = some 1 := by decide +kernel
+
+/-- **C20_counterexample** — false even for the repaired code, by evaluation of the whole read path
+    on a complete file image: one header field (`wal_sequence` 1 → 0, the header has no checksum)
+    makes the writable open replay the applied WAL record — it succeeds with one frame more. -/
 theorem C20_counterexample : ¬ C20_full := by
-  intro h
-  have := h.1 walHdr { walHdr with walSequence := 0 } [{ seq := 1, payload := [7, 7, 7, 7] }] (by decide)
-  revert this
+  intro hfull
+  cases h1 : openRW idCodecs Checks.repaired (cxFile 1) with
+  | error e => have := cx_committed; simp [h1, Except.toOption] at this
+  | ok h =>
+    have c1 : (readAll idCodecs Checks.repaired h).count = 0 := by
+      have := cx_committed; simpa [h1, Except.toOption] using this
+    cases h2 : openRW idCodecs Checks.repaired (cxFile 0) with
+    | error e => have := cx_damaged; simp [h2, Except.toOption] at this
+    | ok h' =>
+      have c2 : (readAll idCodecs Checks.repaired h').count = 1 := by
+        have := cx_damaged; simpa [h2, Except.toOption] using this
+      rcases hfull idCodecs (cxFile 1) (cxFile 0) h (fun _ _ hab => hab) cx_len h1 with ⟨e, he⟩ | ⟨h'', h3, hc, _⟩
+      · rw [h2] at he; cases he
+      · rw [h2] at h3
+        simp only [Except.ok.injEq] at h3
+        subst h3
+        omega
+
+/-! ### the tie to the source -/
+
+/-- **C20_source_performs_checks** — the comparisons the theorems above rely on are present in the
+    source tree the model data was generated from (tools/gen/C20.py → MvModel/Gen/C20.lean): the payload
+    checksum in `read_frame_payload_bytes`, the two passes of `verify(deep)`, the memories-track and
+    logic-mesh checksums, the WAL record hash.  Fails to elaborate on a tree without them. -/
+theorem C20_source_performs_checks :
+    Checks.ofSource.payload = true ∧ Checks.ofSource.verifyPayload = true ∧ Checks.ofSource.verifySegments = true ∧
+    Checks.ofSource.memories = true ∧ Checks.ofSource.mesh = true ∧ Mv.Gen.C20.WAL_PAYLOAD_COMPARED = true := by
   decide
+
+/-- `C20_payload` and `C20_verify` for the source tree itself -/
+theorem C20_payload_source (C : Codecs) (h h' : Handle) (f : MFrame)
+    (hhdr : h'.hdr = h.hdr) (hend : h'.dataEnd = h.dataEnd) (hlen : h'.file.length = h.file.length)
+    (hcommit : C.H (slice h.file f.off f.len) = f.checksum)
+    (hcol : C.H (slice h'.file f.off f.len) = C.H (slice h.file f.off f.len) →
+            slice h'.file f.off f.len = slice h.file f.off f.len) :
+    readOne C Checks.ofSource h' f = readOne C Checks.ofSource h f ∨ ∃ e, readOne C Checks.ofSource h' f = .error e :=
+  C20_payload C Checks.ofSource C20_source_performs_checks.1 h h' f hhdr hend hlen hcommit hcol
 
 end Mv.Integrity
